@@ -12,8 +12,10 @@ import (
 // C15 — title comes from the page, is never invented, and is not repeated in content.
 
 var c15Words = []string{"Alpha", "Beta", "Gamma", "Lorem ipsum dolor sit amet",
+	// 110 characters but 200 bytes: a length window measured in bytes and one measured in characters disagree
+	"Широкая электрификация южных губерний даст мощный толчок подъёму сельского хозяйства и развитию промышленности",
 	"Pellentesque habitant morbi tristique senectus et netus et malesuada fames ac turpis egestas vestibulum tortor quam feugiat vitae ultricies eget tempor sit amet ante donec eu libero"}
-var c15Seps = []string{" ", " - ", " | ", " » ", " / ", " > ", " \\ ", ": ", "-", "'"}
+var c15Seps = []string{" ", " - ", " | ", " » ", " / ", " > ", " \\ ", ": ", "-", "'", "\u00a0"}
 
 var c15H1 = []string{"absent", "title", "part", "other"}
 var c15H2 = []string{"absent", "title"}
@@ -72,7 +74,7 @@ func c15Doc(title, h1, h2, markup string) string {
 	case "part":
 		sb.WriteString("<h1>" + esc(c15Part(title)) + "</h1>")
 	case "other":
-		sb.WriteString("<h1>Unrelated Heading Text Here</h1>")
+		sb.WriteString("<h1>Unrelated Heading Text Goes Right Here Now</h1>")
 	}
 	sb.WriteString("<p>" + t.W(22) + "</p>")
 	if h2 == "title" {
@@ -236,7 +238,7 @@ func init() {
 	eng.Register(&eng.Prop{
 		ID:        "C15",
 		DesignRef: "§5 C15",
-		Rule: "all <title> strings word(sep word)* with <= 3 (quick) / <= 4 (thorough) words over 5 words (3 short, a 26-character and a 180-character filler) and 10 separators (' ', ' - ', ' | ', ' » ', ' / ', ' > ', ' \\ ', ': ', '-', apostrophe) x h1 {absent, = title, = longest part, other} x h2 {absent, = title} x markup title {absent, schema.org headline, OpenGraph qualified, OpenGraph unqualified}; the full variant product for titles of <= 2 / <= 3 words, h1 x {no markup, schema} for the longest titles. " +
+		Rule: "all <title> strings word(sep word)* with <= 3 (quick) / <= 4 (thorough) words over 6 words (3 short, a 26-character filler, a 110-character/200-byte Cyrillic sentence, a 180-character filler) and 11 separators (incl. NBSP) (' ', ' - ', ' | ', ' » ', ' / ', ' > ', ' \\ ', ': ', '-', apostrophe) x h1 {absent, = title, = longest part, other} x h2 {absent, = title} x markup title {absent, schema.org headline, OpenGraph qualified, OpenGraph unqualified}; the full variant product for titles of <= 2 / <= 3 words, h1 x {no markup, schema} for the longest titles. " +
 			"Oracle: MarkupInfo.Title non-empty => Title equals it; else Title is a contiguous part of the normalised <title> or the first h1, non-empty when <title> is, and exactly <title> when that is 15-150 characters with no separator pattern; no h1/h2/h3/p whose text equals Title is emitted in Text or result.Node. " +
 			"Non-trivial = a block equal to Title exists, or the heuristic changed the title.",
 		Enumerate: c15Enumerate,
